@@ -59,8 +59,7 @@ def build_binary():
     """cargo build of the real `versatiles` binary from /repo's working tree into /verif/.build/bin."""
     t = time.time()
     tdir = os.path.join(BUILD, "bin")
-    e = env_offline()
-    e["RUSTFLAGS"] = "--cfg versatiles_verif --check-cfg cfg(versatiles_verif)"
+    e = env_offline()      # the production configuration: hooks (cfg versatiles_verif) are OFF in the served binary
     p = subprocess.run(["cargo", "build", "--offline", "--quiet", "-p", "versatiles", "--bin", "versatiles",
                         "--target-dir", tdir], cwd=REPO, env=e,
                        stdout=subprocess.PIPE, stderr=subprocess.STDOUT, text=True)
